@@ -211,7 +211,7 @@ def run_tlc(module, cfg, wd, trace=None, workers=1, cont=False, timeout=900, env
              and "counter-example" not in x.lower()]
     if rc == 124:
         raise Broken("TLC timeout on %s/%s after %ss" % (module, cfg, timeout))
-    if fatal or "Parsing or semantic analysis failed" in out or (r.generated == 0 and not simulate):
+    if fatal or "Parsing or semantic analysis failed" in out or (r.generated == 0 and not simulate and not r.errors):
         raise Broken("TLC failed on %s/%s (rc=%s): %s\n%s" % (module, cfg, rc, fatal[:3], out[-3000:]))
     r.ok = not r.errors
     return r
